@@ -153,3 +153,41 @@ func RingAngleBad(i, inner, outer int) float64 {
 func RingAngleGood(i, inner, outer int) float64 {
 	return float64(i%inner) * 6.283185307179586 / float64(inner)
 }
+
+// clean:VETO
+func GrowGuarded(cands []int, boundary map[int]bool) []int {
+	var out []int
+	add := func(c int) { out = append(out, c) }
+	for _, c := range cands {
+		blocked := false
+		for k := range boundary {
+			if k == c {
+				blocked = true
+				break
+			}
+		}
+		if !blocked {
+			add(c)
+		}
+	}
+	return out
+}
+
+// want:VETO the veto is ignored under another condition.
+func GrowUnguarded(cands []int, boundary map[int]bool, force bool) []int {
+	var out []int
+	add := func(c int) { out = append(out, c) }
+	for _, c := range cands {
+		blocked := false
+		for k := range boundary {
+			if k == c {
+				blocked = true
+				break
+			}
+		}
+		if force || !blocked {
+			add(c)
+		}
+	}
+	return out
+}
